@@ -1,13 +1,17 @@
 package worlds
 
 import (
+	"context"
+	"encoding/json"
 	"fmt"
+	"strings"
 	"time"
 
 	"github.com/anishathalye/porcupine"
 	liteconfig "go.minekube.com/gate/pkg/edition/java/lite/config"
 	"go.minekube.com/gate/pkg/gate"
 	gconfig "go.minekube.com/gate/pkg/gate/config"
+	pb "go.minekube.com/gate/pkg/internal/api/gen/minekube/gate/v1"
 	"go.minekube.com/gate/pkg/util/configutil"
 	"go.minekube.com/gate/pkg/zzverif/simrt"
 )
@@ -31,9 +35,9 @@ func init() {
 }
 
 type c35in struct {
-	kind   string // apply, cas, snapshot
-	cand   int    // candidate id: 0..3 route sets, -1 invalid, -2 unsupported
-	verOf  int    // cas: the state the expected version was read from (-1: garbage version)
+	kind  string // apply, cas, api (the API handler's conditional apply with a merge patch), snapshot
+	cand  int    // candidate id: 0..3 route sets, -1 invalid, -2 unsupported
+	verOf int    // cas: the state the expected version was read from (-1: garbage version)
 }
 
 type c35out struct {
@@ -84,6 +88,7 @@ func runC35(r *Run) {
 		}
 		return -1
 	}
+	api := gate.NewConfigHandler(g, "")
 	seq := int64(0)
 	var history []porcupine.Operation
 	versionOf := map[int]string{}  // learned: route set -> version string
@@ -97,13 +102,14 @@ func runC35(r *Run) {
 		a := a
 		nOps := 1 + r.W.Pick(6)
 		type plan struct {
-			kind  int
-			cand  int
-			stale int
+			kind   int
+			cand   int
+			stale  int
+			mutate bool // edit the caller's candidate in place after the call returned
 		}
 		plans := make([]plan, nOps)
 		for i := range plans {
-			plans[i] = plan{kind: r.W.Pick(4), cand: []int{0, 1, 2, 3, -1, -2, 1, 2, -3, -4}[r.W.Pick(10)], stale: r.W.Pick(3)}
+			plans[i] = plan{kind: []int{0, 1, 2, 3, 4, 1}[r.W.Pick(6)], mutate: r.W.Pick(3) == 0, cand: []int{0, 1, 2, 3, -1, -2, 1, 2, -3, -4}[r.W.Pick(10)], stale: r.W.Pick(3)}
 		}
 		s.GoNamed(fmt.Sprintf("caller%d", a), func() {
 			defer func() { done++ }()
@@ -117,8 +123,14 @@ func runC35(r *Run) {
 				case 0:
 					r.Op("apply")
 					in = c35in{kind: "apply", cand: p.cand}
-					res := g.ApplyLiveConfig(mk(p.cand))
+					cand := mk(p.cand)
+					res := g.ApplyLiveConfig(cand)
 					out = c35out{code: res.Code, version: res.Version}
+					if p.mutate && len(cand.Config.Lite.Routes) > 0 && len(cand.Config.Lite.Routes[0].Backend) > 0 {
+						r.Probe("candidate_edited_after_apply")
+						cand.Config.Lite.Routes[0].Backend[0] = "edited.after.apply:1"
+						cand.Config.Lite.Routes[0].Host[0] = "edited.example"
+					}
 				case 1:
 					r.Op("cas")
 					exp, st := lastVer, lastState
@@ -126,8 +138,35 @@ func runC35(r *Run) {
 						exp, st = "deadbeef", -1
 					}
 					in = c35in{kind: "cas", cand: p.cand, verOf: st}
-					res := g.ApplyLiveConfigIfVersion(mk(p.cand), exp)
+					cand := mk(p.cand)
+					res := g.ApplyLiveConfigIfVersion(cand, exp)
 					out = c35out{code: res.Code, version: res.Version}
+					if p.mutate && len(cand.Config.Lite.Routes) > 0 && len(cand.Config.Lite.Routes[0].Backend) > 0 {
+						r.Probe("candidate_edited_after_apply")
+						cand.Config.Lite.Routes[0].Backend[0] = "edited.after.apply:1"
+					}
+				case 4:
+					r.Op("api-apply")
+					exp, st := lastVer, lastState
+					if p.stale == 2 {
+						exp, st = "deadbeef", -1
+					}
+					cid := p.cand
+					if cid < 0 {
+						cid = -cid % len(routeSets)
+					}
+					in = c35in{kind: "api", cand: cid, verOf: st}
+					rj, _ := json.Marshal(routeSets[cid])
+					resp, err := api.ApplyConfig(context.Background(), &pb.ApplyConfigRequest{IfMatch: exp,
+						Input: &pb.ApplyConfigRequest_MergePatch{MergePatch: `{"config":{"lite":{"routes":` + string(rj) + `}}}`}})
+					switch {
+					case err == nil:
+						out = c35out{code: "ok", version: resp.GetVersion()}
+					case strings.Contains(err.Error(), "version does not match"):
+						out = c35out{code: "precondition_failed"}
+					default:
+						out = c35out{code: "error:" + err.Error()}
+					}
 				default:
 					r.Op("snapshot")
 					in = c35in{kind: "snapshot"}
@@ -207,6 +246,11 @@ func runC35(r *Run) {
 				}
 				code, next := applyResult()
 				return out.code == code, next
+			case "api":
+				if in.verOf != state {
+					return out.code == "precondition_failed", state
+				}
+				return out.code == "ok", in.cand
 			default: // snapshot
 				return out.code == "ok" && out.routes == state, state
 			}
